@@ -287,6 +287,11 @@ def ST.insertFirst (addr : List Nat) (fresh : ST) : ST → ST := ST.modifyAt (fu
 def ST.insertLast (addr : List Nat) (fresh : ST) : ST → ST := ST.modifyAt (fun cs => cs ++ [fresh]) addr
 /-- `p.children = list(p.children)[::-1]` -/
 def ST.reverseAt (addr : List Nat) : ST → ST := ST.modifyAt List.reverse addr
+/-- `new = Node(..); old_root.parent = new`: a node that was never laid out becomes the root above the old tree -/
+def ST.wrap (t : ST) : ST := .node 0 [t]
+/-- `new = Node(..); new.children = p.children; new.parent = p` for the node `p` at `addr`: a node that was never
+    laid out is inserted between `p` and all its children -/
+def ST.interpose (addr : List Nat) : ST → ST := ST.modifyAt (fun cs => [.node 0 cs]) addr
 
 /-- the subtree at an address -/
 def ST.getAt : List Nat → ST → Option ST
